@@ -370,6 +370,14 @@ pub mod uistv1_client {
             }
         }
     }
+
+    #[cfg(feature = "verif")]
+    impl TestClient {
+        /// Read-only view of the in-process server state for the verification harness.
+        pub fn verif_state(&self) -> &AppState {
+            &self.state
+        }
+    }
 }
 
 pub mod uistv1_server {
